@@ -528,8 +528,39 @@ func (q *checker) bcheckAssignment(lhs *a.Expr, op t.ID, rhs *a.Expr) error {
 		return nil
 	}
 
+	// For "a[i] = etc", the store also changes a[j] whenever j equals i at run
+	// time, whatever j looks like. Every fact that reads an element of a (not
+	// just those mentioning a[i]) is therefore invalidated, and no new fact
+	// about a[i] is recorded if i or the RHS read an element of a.
+	mentionsLHS := func(x *a.Expr) bool {
+		return x.Mentions(lhs)
+	}
+	indexReadsBase := false
+	if lhs.Operator() == t.IDOpenBracket {
+		base := lhs.LHS().AsExpr()
+		for (base.Operator() == t.IDOpenBracket) || (base.Operator() == t.IDDotDot) {
+			base = base.LHS().AsExpr()
+		}
+		mentionsLHS = func(x *a.Expr) bool {
+			return x.Mentions(lhs) || mentionsElementsOf(x, base)
+		}
+		for o := lhs; o != base; o = o.LHS().AsExpr() {
+			if x := o.MHS().AsExpr(); (x != nil) && mentionsElementsOf(x, base) {
+				indexReadsBase = true
+			}
+			if x := o.RHS().AsExpr(); (x != nil) && mentionsElementsOf(x, base) {
+				indexReadsBase = true
+			}
+		}
+	}
+
 	if op == t.IDEq {
-		if err := q.facts.dropAnyFactsMentioning(lhs); err != nil {
+		if err := q.facts.update(func(x *a.Expr) (*a.Expr, error) {
+			if mentionsLHS(x) {
+				return nil, nil
+			}
+			return x, nil
+		}); err != nil {
 			return err
 		}
 
@@ -539,7 +570,7 @@ func (q *checker) bcheckAssignment(lhs *a.Expr, op t.ID, rhs *a.Expr) error {
 		} else if lhs.MType().IsNumType() {
 			// For "x = x + 1", do not record "x == (x + 1)": the RHS refers to
 			// the old value of x.
-			if !rhs.Mentions(lhs) {
+			if !mentionsLHS(rhs) && !indexReadsBase {
 				q.facts.appendBinaryOpFact(t.IDXBinaryEqEq, lhs, rhs)
 			}
 
@@ -595,12 +626,12 @@ func (q *checker) bcheckAssignment(lhs *a.Expr, op t.ID, rhs *a.Expr) error {
 		if err := q.facts.update(func(x *a.Expr) (*a.Expr, error) {
 			xOp, xLHS, xRHS := parseBinaryOp(x)
 			if xOp == 0 || !xLHS.Eq(lhs) {
-				if x.Mentions(lhs) {
+				if mentionsLHS(x) {
 					return nil, nil
 				}
 				return x, nil
 			}
-			if xRHS.Mentions(lhs) || rhs.Mentions(lhs) {
+			if mentionsLHS(xRHS) || mentionsLHS(rhs) || indexReadsBase {
 				// For "x -= x", the RHS refers to the old value of x.
 				return nil, nil
 			}
@@ -624,7 +655,7 @@ func (q *checker) bcheckAssignment(lhs *a.Expr, op t.ID, rhs *a.Expr) error {
 		}
 	}
 
-	if lhs.MType().IsNumType() && ((op != t.IDEq) || (rhs.ConstValue() == nil)) {
+	if lhs.MType().IsNumType() && !indexReadsBase && ((op != t.IDEq) || (rhs.ConstValue() == nil)) {
 		lb, err := q.bcheckTypeExpr(lhs.MType())
 		if err != nil {
 			return err
@@ -646,6 +677,20 @@ func (q *checker) bcheckAssignment(lhs *a.Expr, op t.ID, rhs *a.Expr) error {
 	}
 
 	return nil
+}
+
+// mentionsElementsOf returns whether n reads an element of base: whether it
+// contains an index expression like "base[i]", "base[i][j]" or "base[i .. j][k]".
+func mentionsElementsOf(n *a.Expr, base *a.Expr) (ret bool) {
+	n.AsNode().Walk(func(o *a.Node) error {
+		if o.Kind() == a.KExpr {
+			if o := o.AsExpr(); (o.Operator() == t.IDOpenBracket) && o.LHS().AsExpr().Mentions(base) {
+				ret = true
+			}
+		}
+		return nil
+	})
+	return ret
 }
 
 func (q *checker) bcheckAssignment1(lhs *a.Expr, lTyp *a.TypeExpr, op t.ID, rhs *a.Expr) (bounds, error) {
